@@ -589,7 +589,7 @@ def run(ctx):
         n_rand = (250, 120, 300)
     else:
         mask_shapes = _mask_shapes(12, 6)
-        mask_kernels = [(3, 3), (1, 3), (3, 1), (5, 3), (3, 5), (7, 7)]
+        mask_kernels = [(3, 3), (1, 3), (5, 3), (3, 5)]
         n_rand = (3000, 1500, 4000)
     buffers = [0, 1, 2]
     ctx.bounds = {"resize_input_shapes": "1..6 x 1..6", "resize_target_shapes": "1..8 x 1..8 (every parity combination)",
